@@ -1,7 +1,136 @@
-/- stub: overwritten by the builder of this engine -/
-import Driver.Common
-open Lean FV FV.Drv
+/-
+Driver for E7/environment (C18).  One JSON object per line:
 
-def handle (_ : Json) : Except String Json := throw "driver not implemented"
+  {"op":"fl","kind":"mul"|"div"|"sub"|"avg"|"ceil", "a":[n,e], "b":[n,e] | "xs":[[n,e],..]}  → {"v":[n,e]} | {"n":k}
+  {"op":"update","t":TUNER,"prev":[n,e],"cur":[n,e],"divs":[[n,e],..]}  → {"t":TUNER,"avg":[n,e],"stagnating":b}
+  {"op":"traj","c0":n,"rate":[n,e],"cap1":n|null,"cap2":n,"k":n}          → {"traj":[..]}
+  {"op":"world","loc":"global"|"perGrammar"|"source","ops":[[inst,ACT],..]} → {"outs":[[inst,OUT],..],"gcap":n}
+  {"op":"pattern","tags":[..]}                                               → {"pattern":[..]}
+
+TUNER = {"mut":[n,e],"cross":[n,e],"curRep":n,"curNodes":n,"initMut":..,"initCross":..,"initRep":n,
+         "initNodes":n,"maxReps":n|null,"repRate":[n,e],"maxNodes":n,"nodesRate":[n,e]}
+ACT = ["new"] | ["init",SETTINGS|null] | ["gen",prev,cur,avgDiv] | ["reset"] | ["fuzz"] | ["build"] | ["parse",n] | ["cap"]
+The constants are the generated ones (`Generated/Env.lean`).
+-/
+import Driver.Common
+import Generated.Env
+open Lean FV FV.Drv FV.Env
+
+def dyOf (j : Json) : Except String Dy := do
+  let a ← j.getArr?
+  if a.size != 2 then throw "dyadic must be [num, exp]"
+  return ⟨← a[0]!.getNat?, ← a[1]!.getNat?⟩
+
+def jNat (n : Nat) : Json := Json.num (JsonNumber.fromNat n)
+def jDy (d : Dy) : Json := let d := d.norm; Json.arr #[jNat d.num, jNat d.exp]
+
+def optNat (j : Json) : Except String (Option Nat) :=
+  match j with
+  | .null => pure none
+  | _ => do return some (← j.getNat?)
+
+def jOptNat : Option Nat → Json
+  | some n => jNat n
+  | none => Json.null
+
+def tunerOf (j : Json) : Except String Tuner := do
+  return { mutR := ← dyOf (← j.getObjVal? "mut"), crossR := ← dyOf (← j.getObjVal? "cross"),
+           curRep := ← j.getObjValAs? Nat "curRep", curNodes := ← j.getObjValAs? Nat "curNodes",
+           initMut := ← dyOf (← j.getObjVal? "initMut"), initCross := ← dyOf (← j.getObjVal? "initCross"),
+           initRep := ← j.getObjValAs? Nat "initRep", initNodes := ← j.getObjValAs? Nat "initNodes",
+           maxReps := ← optNat (← j.getObjVal? "maxReps"), repRate := ← dyOf (← j.getObjVal? "repRate"),
+           maxNodes := ← j.getObjValAs? Nat "maxNodes", nodesRate := ← dyOf (← j.getObjVal? "nodesRate") }
+
+def jTuner (t : Tuner) : Json :=
+  Json.mkObj [("mut", jDy t.mutR), ("cross", jDy t.crossR), ("curRep", jNat t.curRep),
+    ("curNodes", jNat t.curNodes), ("initMut", jDy t.initMut), ("initCross", jDy t.initCross),
+    ("initRep", jNat t.initRep), ("initNodes", jNat t.initNodes), ("maxReps", jOptNat t.maxReps),
+    ("repRate", jDy t.repRate), ("maxNodes", jNat t.maxNodes), ("nodesRate", jDy t.nodesRate)]
+
+def settingsOf (j : Json) : Except String Settings :=
+  match j with
+  | .null => pure Generated.defaultSettings
+  | _ => do
+    return { mutR := ← dyOf (← j.getObjVal? "mut"), crossR := ← dyOf (← j.getObjVal? "cross"),
+             maxReps := ← optNat (← j.getObjVal? "maxReps"), repRate := ← dyOf (← j.getObjVal? "repRate"),
+             maxNodes := ← j.getObjValAs? Nat "maxNodes", nodesRate := ← dyOf (← j.getObjVal? "nodesRate") }
+
+def actOf (a : Array Json) : Except String Act := do
+  let tag ← (a[1]?.getD Json.null).getStr?
+  match tag with
+  | "new" => return .newInstance
+  | "init" => return .initPopulation (← settingsOf (a[2]?.getD Json.null))
+  | "gen" =>
+    let p ← dyOf (a[2]?.getD Json.null)
+    let c ← dyOf (a[3]?.getD Json.null)
+    let d ← dyOf (a[4]?.getD Json.null)
+    return .generation p c d
+  | "reset" => return .resetTuner
+  | "fuzz" => return .fuzzOne
+  | "build" => return .buildParser
+  | "parse" => return .parse (← (a[2]?.getD Json.null).getNat?)
+  | "cap" => return .getCap
+  | _ => throw s!"unknown act {tag}"
+
+def opOf (j : Json) : Except String Op := do
+  let a ← j.getArr?
+  return { inst := ← (a[0]?.getD Json.null).getNat?, act := ← actOf a }
+
+def jOut : Out → Json
+  | .fuzz hi tag => Json.arr #["fuzz", jNat hi, jNat tag]
+  | .parse b => Json.arr #["parse", Json.bool b]
+  | .cap c => Json.arr #["cap", jNat c]
+
+def handle (j : Json) : Except String Json := do
+  let op ← j.getObjValAs? String "op"
+  match op with
+  | "fl" =>
+    let kind ← j.getObjValAs? String "kind"
+    match kind with
+    | "avg" =>
+      let xs ← (← j.getObjValAs? (Array Json) "xs").toList.mapM dyOf
+      return Json.mkObj [("v", jDy (Dy.avg xs))]
+    | "ceil" => return Json.mkObj [("n", jNat (Dy.ceil (← dyOf (← j.getObjVal? "a"))))]
+    | _ =>
+      let a ← dyOf (← j.getObjVal? "a")
+      let b ← dyOf (← j.getObjVal? "b")
+      match kind with
+      | "mul" => return Json.mkObj [("v", jDy (Dy.mul a b))]
+      | "div" => if b.num = 0 then throw "division by zero" else return Json.mkObj [("v", jDy (Dy.div a b))]
+      | "sub" => if Dy.lt a b then throw "negative difference" else return Json.mkObj [("v", jDy (Dy.sub a b))]
+      | _ => throw s!"unknown kind {kind}"
+  | "update" =>
+    let t ← tunerOf (← j.getObjVal? "t")
+    let prev ← dyOf (← j.getObjVal? "prev")
+    let cur ← dyOf (← j.getObjVal? "cur")
+    let divs ← (← j.getObjValAs? (Array Json) "divs").toList.mapM dyOf
+    let avg := Dy.avg divs
+    return Json.mkObj [("t", jTuner (t.update Generated.tunerCfg prev cur avg)), ("avg", jDy avg),
+      ("stagnating", Json.bool (stagnating Generated.tunerCfg prev cur avg))]
+  | "traj" =>
+    let c0 ← j.getObjValAs? Nat "c0"
+    let rate ← dyOf (← j.getObjVal? "rate")
+    let cap1 ← optNat (← j.getObjVal? "cap1")
+    let cap2 ← j.getObjValAs? Nat "cap2"
+    let k ← j.getObjValAs? Nat "k"
+    if k > 100000 then throw "k too large"
+    return Json.mkObj [("traj", jNats ((List.range (k + 1)).map
+      (trajectory Generated.tunerCfg.minInc rate cap1 cap2 c0)))]
+  | "world" =>
+    let locS ← j.getObjValAs? String "loc"
+    let loc ← match locS with
+      | "global" => pure CapLoc.moduleGlobal
+      | "perGrammar" => pure CapLoc.perGrammar
+      | "source" => pure Generated.capLocation
+      | _ => throw s!"unknown loc {locS}"
+    let ops ← (← j.getObjValAs? (Array Json) "ops").toList.mapM opOf
+    let d := Generated.defaultMaxRepetitions
+    let r := run loc Generated.tunerCfg d Generated.defaultSettings (World.fresh d) ops
+    return Json.mkObj [("outs", Json.arr (r.2.map (fun p => Json.arr #[jNat p.1, jOut p.2])).toArray),
+      ("gcap", jNat r.1.gcap)]
+  | "pattern" =>
+    let tags ← natArr (← j.getObjVal? "tags")
+    return Json.mkObj [("pattern", jNats (tagPattern tags))]
+  | _ => throw s!"unknown op {op}"
 
 def main : IO Unit := run handle
